@@ -2,6 +2,7 @@ package file
 
 import (
 	"crypto/x509"
+	"crypto/x509/pkix"
 	"encoding/asn1"
 	"encoding/hex"
 	"errors"
@@ -120,9 +121,27 @@ func getCertificateInfo(c *x509.Certificate) (Info, error) {
 		info.Attributes = append(info.Attributes, Attribute{"SANs", strings.Join(sans, ", ")})
 	}
 
-	info.Attributes = append(info.Attributes, Attribute{"Signature algorithm", c.SignatureAlgorithm.String()})
+	info.Attributes = append(info.Attributes, Attribute{"Signature algorithm", certSignatureAlgorithm(c)})
 
 	return info, nil
+}
+
+// certSignatureAlgorithm names the signature algorithm of c. An algorithm that
+// crypto/x509 does not know is shown by its object identifier (the library's name
+// for every such algorithm is "0").
+func certSignatureAlgorithm(c *x509.Certificate) string {
+	if c.SignatureAlgorithm != x509.UnknownSignatureAlgorithm {
+		return c.SignatureAlgorithm.String()
+	}
+	var outer struct {
+		TBSCertificate     asn1.RawValue
+		SignatureAlgorithm pkix.AlgorithmIdentifier
+		SignatureValue     asn1.BitString
+	}
+	if _, err := asn1.Unmarshal(c.Raw, &outer); err != nil {
+		return c.SignatureAlgorithm.String()
+	}
+	return outer.SignatureAlgorithm.Algorithm.String()
 }
 
 func x509KeyUsages(ku x509.KeyUsage) []string {
